@@ -29,7 +29,8 @@ SWrong == Is("WrongSecret") /\ l' = l + 1 /\ ~Trace[l].completed /\ UNCHANGED ss
 SRun == Is("Run") /\ l' = l + 1 /\ tIntact' = 0 /\ tTotal' = 0 /\ tDelivered' = 0 /\ tEnded' = FALSE /\ UNCHANGED have /\ UNCHANGED bsvars
 SPlan == Is("Plan") /\ l' = l + 1 /\ tIntact' = Trace[l].intact /\ tTotal' = Trace[l].total
          /\ UNCHANGED <<have, tDelivered, tEnded>> /\ UNCHANGED bsvars
-SReadX == /\ Is("ReadRet") /\ Trace[l].d = "x" /\ l' = l + 1 /\ ~tEnded
+\* (also after the error: a consumer that keeps reading may be handed what was decoded before the damage, nothing else)
+SReadX == /\ Is("ReadRet") /\ Trace[l].d = "x" /\ l' = l + 1
           /\ Trace[l].ok /\ Trace[l].off = tDelivered /\ tDelivered + Trace[l].n <= tIntact
           /\ tDelivered' = tDelivered + Trace[l].n /\ UNCHANGED <<have, tIntact, tTotal, tEnded>> /\ UNCHANGED bsvars
 SEnd == /\ Is("End") /\ l' = l + 1 /\ Trace[l].err # "" /\ (tIntact = tTotal => tDelivered = tTotal)
